@@ -57,7 +57,8 @@ def gen(ctx):
     texts = qpool.all_texts() + qpool.generated_texts(ctx.rng, 200 if ctx.tier == "quick" else 4000)
     docs = qpool.DOCS + qpool.generated_docs(ctx.rng, 10 if ctx.tier == "quick" else 150)
     for t in texts:
-        for d in (ctx.rng.sample(docs, 4) if ctx.tier == "quick" else docs):
+        ds = docs if ctx.tier != "quick" else (docs[:2] + ctx.rng.sample(docs[2:], 3))
+        for d in ds:
             cases.append({"text": t, "doc": d, "ctx": ctx.rng.choice(qpool.CONTEXTS)})
     return cases
 
